@@ -99,6 +99,13 @@ fn replay_one(e: &Entry, rec: &Value, modes_all: bool, cx: &mut Ctx) -> Value {
         let mut acc = 0usize;
         bounds.insert(0usize);
         for l in &spec_calls {
+            // a block longer than any fixed-width primitive is raw bytes (a string's content): writing it in pieces
+            // is chunking, not a different encoding
+            if *l > 16 {
+                for k in 1..*l {
+                    bounds.insert(acc + k);
+                }
+            }
             acc += l;
             bounds.insert(acc);
         }
